@@ -82,8 +82,8 @@ TReadback ==
            g == e.res.items
        IN  On("C01") =>
              IF e.random /\ ~e.withShx
-             THEN e.res.err = "missing_index" /\ g = << >>
-             ELSE /\ e.res.err = "" /\ Len(g) = Len(S)
+             THEN e.res.err = "missing_index" /\ e.res.openErr = "" /\ g = << >>
+             ELSE /\ e.res.err = "" /\ e.res.openErr = "" /\ Len(g) = Len(S)
                   /\ \A i \in 1..Len(S) : ReadBackRel(S[i], g[i], Exact)
                   /\ e.random => e.res.nonePastEnd
 
